@@ -18,8 +18,7 @@ GEN     Gen_XfrOut: every sequence of <= 2 (quick; thorough 3) envelopes over 7 
         over) must be one the specification admits.  Producer and Out are serialised WITHOUT clocks: after each
         hand-over the producer waits until Out's goroutine is parked in the channel receive (runtime.Stack) or returned;
         "never returns" = parked in the receive with the channel open.
-TV      the events of those runs and of `xfrout record` (random scripts: <= 6 envelopes of <= 12 records, opcodes 0 / 4
-        / 5) -> Trace_XfrOut: every frame = length prefix + exactly the reply the envelope calls for (request ID, QR,
+TV      the events of those runs and of `xfrout record` (random scripts: <= 6 envelopes of <= 12 records, opcodes 0 / 4) -> Trace_XfrOut: every frame = length prefix + exactly the reply the envelope calls for (request ID, QR,
         opcode, RD / CD copied for QUERY, AA, RCODE 0, first question, the records' own octets in order); TSIG variables
         (key, algorithm, fudge, original ID, time inside the window); event order (no frame after an error, return only
         after close).  For every signed frame the specification writes the RFC 8945 4.3 digest input (request MAC + full
@@ -55,8 +54,8 @@ def judge_trace(ctx, binp, events_path):
     side = os.path.join(tr.r.dir, "vectors.ndjson")
     if os.path.exists(side):
         vp.absorb(ctx, ctx.run_json(binp, ["judge", events_path, side]))
-    elif any(e["ev"] == "frame" and e.get("cls") == "good" for e in evs):
-        raise vp.Infra("Trace_XfrOut wrote no digest inputs although signed frames were recorded")
+    elif any(e["ev"] == "frame" and e.get("cls") == "good" for e in evs) and not tr.bad:
+        raise vp.Infra("Trace_XfrOut wrote no digest inputs although signed frames were recorded and accepted")
 
 
 def gen(ctx, binp, mode, n, nshards, sh):
